@@ -67,6 +67,12 @@ typedef struct {
         /* PON: len = frame length (hash length); no_ctr */
         int pon_noctr;
         int chain_order;  /* 0 = documented default */
+        /* chained cipher + hash job: alg = cipher row, alg2 = hash row (0 = none). The hash stage covers
+         * src[hoff .. hoff+hlen) (hlen in the hash row's unit), uses hiv (rows that take an IV) and tag/taglen */
+        int alg2;
+        uint32_t hoff, hlen;
+        const uint8_t *hiv;
+        int hivlen;
 } item_t;
 
 void alg_set_poison(void *p);
@@ -83,6 +89,8 @@ void alg_fill(IMB_MGR *m, IMB_JOB *j, const item_t *it);
 /* expected outputs from the reference model. exp_dst gets item_nbytes bytes (cipher/aead), exp_tag gets
  * item_taglen bytes (hash/aead), exp_next_iv 16 bytes (CBCS). `prev_dst`: contents of dst before the job
  * (needed for modes that preserve bits/blocks of dst); may be NULL => zeros. Returns bitmask 1=dst 2=tag. */
+/* chained job: expected dst and tag under the documented data flow (hash stage reads src as it stands when it runs) */
+int alg_ref_chain(const item_t *it, uint8_t *exp_dst, uint8_t *exp_tag);
 int alg_ref(const item_t *it, const uint8_t *prev_dst, uint8_t *exp_dst, uint8_t *exp_tag, uint8_t *exp_next_iv);
 /* compare produced dst with expectation honouring bit-length tails; 0 = equal */
 int alg_cmp_dst(const item_t *it, const uint8_t *got, const uint8_t *exp);
